@@ -81,7 +81,7 @@ BOUNDS = {
         "dec_block_alphabet": 18, "parse_len": 3, "parse_alphabet": 44, "const_window_log2": 22, "const_halo": 64,
     },
 }
-CAP_S = {"quick": 240, "thorough": 1800}
+CAP_S = {"quick": 400, "thorough": 1800}
 
 CONFIGS = [("little", 4), ("little", 8), ("big", 4), ("big", 8)]
 NULL_UUID = uuid.UUID(int=0)
